@@ -440,6 +440,15 @@ def check_generic(prop, tier, cfgs, n_quick, n_thorough, sigfun, stages, level="
                 op = Program(len(progs), ss, root, label)
                 op.port = None
                 progs.append(op)
+        if prop in ("C01", "C02", "C08", "C09", "C10"):
+            # two inline schemas that refer to each other, in every order
+            from .wsdl_driver import free_port
+            for label, ss in gen_mini.mutual_inline_family():
+                port = free_port()
+                ss.wsdl.location = f"http://127.0.0.1:{port}/mutual"
+                mp = Program(len(progs), ss, root, label)
+                mp.port = port
+                progs.append(mp)
         progs = run_programs(progs, stages)
         evaluated, accepted, compiled = 0, 0, 0
         fps = set()
